@@ -36,13 +36,14 @@ META = {
              "was emitted or an exception was raised."),
     "phases": [{"name": "main", "flavour": "P", "shards": 16}],
     "gates": {
-        "quick": {"evaluations": 250000, "events_checked": 100000, "failures_checked": 90000,
-                  "observer_events_checked": 90000, "history_ops": 80000,
-                  "raw_pairs_compared": 190000, "raw_after_observer_compared": 100000,
-                  "exhaustive_cases": 170000},
-        "thorough": {"evaluations": 1000000, "events_checked": 400000, "failures_checked": 200000,
-                     "observer_events_checked": 150000, "history_ops": 400000,
-                     "raw_pairs_compared": 150000, "exhaustive_cases": 100000},
+        "quick": {"evaluations": 220000, "events_checked": 90000, "failures_checked": 85000,
+                  "observer_events_checked": 80000, "history_ops": 70000,
+                  "raw_pairs_compared": 170000, "raw_after_observer_compared": 95000,
+                  "exhaustive_cases": 150000},
+        "thorough": {"evaluations": 2000000, "events_checked": 1000000, "failures_checked": 500000,
+                     "observer_events_checked": 800000, "history_ops": 1800000,
+                     "raw_pairs_compared": 1400000, "raw_after_observer_compared": 250000,
+                     "exhaustive_cases": 150000},
     },
     "exhaustive_parts": "all single operations of the grid in `rule` on every start dict of size "
                         "0..3 over the validated key universe of each flavour",
